@@ -327,6 +327,22 @@ def _run_case(case):
                 w.delete_entity(entity_of[v], immediate=True)
         elif owner == 'proc':
             w.remove_processor(classes[victims[0]])
+        if runner_uid is not None:
+            # dropped from inside a callback: the running dispatch does not
+            # keep the others alive either (it would go on to call them,
+            # "after they are gone")
+            for v in victims:
+                if v == runner_uid:
+                    continue
+                if refs[v]() is not None:
+                    gc.collect()
+                res.stats['liveness_checked_inside_dispatch'] += 1
+                if refs[v]() is not None and not res.divs:
+                    res.div(state['token'], 'handler-kept-alive', f'handler '
+                            f'{v} is still alive right after its last '
+                            'reference was dropped by a callback of the '
+                            'running dispatch (and gc.collect())', 'dead',
+                            'alive', inside_dispatch=True)
 
     def on_ev(self, token):
         if self is None:
